@@ -73,7 +73,8 @@ Section Refinement.
     /\ meta (joined (a_d af)) = Some (a_dl af, a_dt af, a_u af)
     /\ a_chunks af <> []
     /\ Forall chunk_ok (a_chunks af)
-    /\ (a_dl af = None -> Forall (fun c => c_dt c = a_dt af) (a_chunks af)).
+    /\ (a_dl af = None -> Forall (fun c => c_dt c = a_dt af) (a_chunks af))
+    /\ Forall (fun c => compat (a_dl af) (a_dt af) (c_dt c) = true) (a_chunks af).
 
   (* the invariant: the concrete state IS the image of the abstract one *)
   Definition Inv (s : state) (a : astate) : Prop :=
@@ -119,20 +120,24 @@ Section Refinement.
 
   Lemma af_ok_new dl c d u : chunk_ok c -> header_ok meta dl c d u -> af_ok (new_file dl c d u).
   Proof.
-    intros C [T M]. unfold af_ok, new_file; simpl. repeat split; try assumption.
-    - discriminate.
-    - constructor; [exact C | constructor].
-    - intros ->. constructor; [reflexivity | constructor].
+    intros C [T M]. unfold af_ok, new_file; cbn [a_dl a_dt a_d a_u a_chunks].
+    split; [exact T|]. split; [exact M|]. split; [discriminate|].
+    split; [constructor; [exact C | constructor]|].
+    split; [intros ->; constructor; [reflexivity | constructor]|].
+    constructor; [apply compat_created | constructor].
   Qed.
 
   Lemma af_ok_add af c : af_ok af -> chunk_ok c -> compat (a_dl af) (a_dt af) (c_dt c) = true ->
     af_ok (add_chunk af c).
   Proof.
-    intros (T & M & NE & F & D) C K. unfold af_ok, add_chunk; simpl. repeat split; try assumption.
-    - intro E. apply app_eq_nil in E. destruct E as [_ E]. discriminate.
-    - apply Forall_app. split; [exact F | constructor; [exact C | constructor]].
+    intros (T & M & NE & F & D & KK) C K. unfold af_ok, add_chunk; cbn [a_dl a_dt a_d a_u a_chunks].
+    split; [exact T|]. split; [exact M|].
+    split; [intro E; apply app_eq_nil in E; destruct E as [_ E]; discriminate|].
+    split; [apply Forall_app; split; [exact F | constructor; [exact C | constructor]]|].
+    split.
     - intro N. apply Forall_app. split; [apply D; exact N|].
       constructor; [|constructor]. rewrite N in K. simpl in K. apply dtype_eqb_eq in K. congruence.
+    - apply Forall_app. split; [exact KK | constructor; [exact K | constructor]].
   Qed.
 
   Lemma mk_header_ge8 n d : 0 <= n < 10 ^ 20 -> forall rest, (length (mk_header n d ++ rest) <? 8)%nat = false.
@@ -165,7 +170,7 @@ Section Refinement.
   Lemma rows_fit_all af : af_ok af -> a_dl af = None ->
     Forall (fun r => Z.of_nat (length r) = rowsize (a_dt af)) (all_rows af).
   Proof.
-    intros (_ & _ & _ & F & D) N. rewrite (all_rows_binary af N). specialize (D N).
+    intros (_ & _ & _ & F & D & _) N. rewrite (all_rows_binary af N). specialize (D N).
     induction (a_chunks af) as [|c t IH]; [constructor|].
     inversion F; subst. inversion D; subst. cbn [map concat]. apply Forall_app. split.
     - destruct H1 as (_ & R & _). rewrite <- H3. exact R.
@@ -182,7 +187,7 @@ Section Refinement.
     destruct (a_dl af) as [dl|] eqn:N; [reflexivity|].
     unfold image. rewrite (body_binary af N).
     assert (R : 0 < rowsize (a_dt af)).
-    { destruct OK as (_ & _ & NE & F & D). specialize (D N).
+    { destruct OK as (_ & _ & NE & F & D & _). specialize (D N).
       destruct (a_chunks af) as [|c t]; [contradiction|]. inversion F; subst. inversion D; subst.
       destruct H1 as (_ & _ & R). rewrite <- H3. exact R. }
     assert (L : total af = Z.of_nat (length (all_rows af))).
